@@ -103,6 +103,14 @@ pub fn alpha_beta_search(
         let mut local_context = context.clone();
         let local_depth = context.search_depth();
 
+        #[cfg(chess_verif)]
+        crate::verif::emit(crate::verif::task_event(
+            crate::verif::Kind::TaskBegin,
+            chess_move,
+            local_depth,
+            current_player_is_maximizing,
+            None,
+        ));
         chess_move.apply(&mut local_board).unwrap();
         local_board.toggle_turn();
 
@@ -121,6 +129,14 @@ pub fn alpha_beta_search(
 
         chess_move.undo(&mut local_board).unwrap();
         local_board.toggle_turn();
+        #[cfg(chess_verif)]
+        crate::verif::emit(crate::verif::task_event(
+            crate::verif::Kind::TaskEnd,
+            chess_move,
+            local_depth,
+            current_player_is_maximizing,
+            Some(score),
+        ));
 
         (score, chess_move.clone())
     });
@@ -159,7 +175,27 @@ fn alpha_beta_minimax(
     maximizing_player: bool,
 ) -> Result<i16, SearchError> {
     let search_node = (board.current_position_hash(), alpha, beta);
+    #[cfg(chess_verif)]
+    let verif_window = (alpha, beta);
+    #[cfg(chess_verif)]
+    crate::verif::emit(crate::verif::node_event(
+        crate::verif::Kind::Probe,
+        board,
+        depth,
+        maximizing_player,
+        verif_window,
+        None,
+    ));
     if let Some(score) = check_cache(context, search_node) {
+        #[cfg(chess_verif)]
+        crate::verif::emit(crate::verif::node_event(
+            crate::verif::Kind::ProbeResult,
+            board,
+            depth,
+            maximizing_player,
+            verif_window,
+            Some(score),
+        ));
         trace!(
             "{}alpha_beta_minimax returning cached score: {} for depth: {}",
             "  ".repeat((context.search_depth() - depth) as usize),
@@ -168,6 +204,15 @@ fn alpha_beta_minimax(
         );
         return Ok(score);
     }
+    #[cfg(chess_verif)]
+    crate::verif::emit(crate::verif::node_event(
+        crate::verif::Kind::ProbeResult,
+        board,
+        depth,
+        maximizing_player,
+        verif_window,
+        None,
+    ));
 
     trace!(
         "{}alpha_beta_minimax(depth: {}, alpha: {}, beta: {}, maximizing_player: {})",
@@ -192,6 +237,15 @@ fn alpha_beta_minimax(
             score,
             depth
         );
+        #[cfg(chess_verif)]
+        crate::verif::emit(crate::verif::node_event(
+            crate::verif::Kind::Store,
+            board,
+            depth,
+            maximizing_player,
+            verif_window,
+            Some(score),
+        ));
         set_cache(context, search_node, score);
         return Ok(score);
     }
@@ -208,6 +262,15 @@ fn alpha_beta_minimax(
             score,
             depth
         );
+        #[cfg(chess_verif)]
+        crate::verif::emit(crate::verif::node_event(
+            crate::verif::Kind::Store,
+            board,
+            depth,
+            maximizing_player,
+            verif_window,
+            Some(score),
+        ));
         set_cache(context, search_node, score);
         return Ok(score);
     }
@@ -239,6 +302,15 @@ fn alpha_beta_minimax(
                 break;
             }
         }
+        #[cfg(chess_verif)]
+        crate::verif::emit(crate::verif::node_event(
+            crate::verif::Kind::Store,
+            board,
+            depth,
+            maximizing_player,
+            verif_window,
+            Some(value),
+        ));
         set_cache(context, search_node, value);
         Ok(value)
     } else {
@@ -260,6 +332,15 @@ fn alpha_beta_minimax(
                 break;
             }
         }
+        #[cfg(chess_verif)]
+        crate::verif::emit(crate::verif::node_event(
+            crate::verif::Kind::Store,
+            board,
+            depth,
+            maximizing_player,
+            verif_window,
+            Some(value),
+        ));
         set_cache(context, search_node, value);
         Ok(value)
     }
